@@ -39,10 +39,10 @@ class _Rec:
     setattr(self.owner, self.name, self.old)
 
 
-def _labels(ctx, n, need_pos=True, need_neg=True, fixed=None):
+def _labels(ctx, n, need_pos=True, need_neg=True, fixed=None, lo=-1):
   if fixed is not None:
     return np.array(fixed)
-  y = ctx.integer('y', -1, 1, n)
+  y = ctx.integer('y', lo, 1, n)
   if need_pos:
     ctx.assume(ctx.or_(*[ctx.and_(ctx.eq(y[i], y[j], tol=0.0), ctx.ge(y[i], 0, tol=0.0))
                          for i in range(n) for j in range(i + 1, n)]))
@@ -174,12 +174,13 @@ def lsml_truncation_case():
   return fn
 
 
-def rca_case(n, d, n_chunks, chunk_size, budget):
+def rca_case(n, d, n_chunks, chunk_size, budget, lo=-1):
   def fn(ctx):
     from metric_learn import RCA_Supervised, RCA
     from metric_learn.constraints import Constraints
     X = ctx.real('X', (n, d))
-    y = _labels(ctx, n, need_neg=False)
+    # (with several unknown markers also label vectors without any chunk of known points: fit must then refuse, like the helper)
+    y = _labels(ctx, n, need_pos=(lo == -1), need_neg=False, lo=lo)
     rng = BudgetRNG(ctx, budget)
     est = RCA_Supervised(n_chunks=n_chunks, chunk_size=chunk_size, random_state=rng)
     try:
@@ -325,6 +326,9 @@ def cases(tier, seed):
     out.append(case('rca_n%d_k%d_s%d' % (n, k, cs), rca_case(n, 1, k, cs, 8), FUNCS,
                     '%d arbitrary points, labels arbitrary in {-1,0,1}, n_chunks=%d, chunk_size=%d' % (n, k, cs), tiers=tiers,
                     cost=15, max_paths=400000, hard_timeout_s=3000, validate=10))
+  out.append(case('rca_n4_k1_s2_two_unknown_labels', rca_case(4, 1, 1, 2, 8, lo=-2), FUNCS,
+                  '4 arbitrary points, labels arbitrary in {-2,-1,0,1} (two distinct negative = unlabeled markers), n_chunks=1, chunk_size=2', tiers=Q,
+                  cost=15, max_paths=400000, hard_timeout_s=3000, validate=10))
   for labels, tiers in (((0, 0, 1, 1), Q), ((-1, 0, 0, 1, 1), Q), ((0, -1, 1, 0, 1), Q), ((1, 0, 0, -1, 1), T), ((0, 1, -1, 0, 1), T)):
     for basis in ('triplet_diffs', 'lda'):
       out.append(case('scml_%s_%s' % (''.join('u' if v < 0 else str(v) for v in labels), basis),
